@@ -312,8 +312,9 @@ def update(d1: dict, d2: dict, overwrite: bool = True) -> dict:
                     new_list.append(d)
             d1[k] = new_list
         else:
-            if k in d1 and v == "__delete__":
-                del d1[k]
+            if isinstance(v, str) and v == "__delete__":
+                if k in d1:
+                    del d1[k]
             else:
                 if overwrite is True or k not in d1:
                     d1[k] = v
